@@ -21,8 +21,11 @@ pub enum Leaf {
     HostPseudo,
     /// a declaration-only at-rule block (`@font-face{…}`): stays where it is
     AtBlock,
+    /// `: host{…}` — a blank between the colon and the name: not the `:host` pseudo-class (a selector has no blank there), a rule
+    /// like any other: stays where it is, blank included
+    BlankHost,
 }
-pub const LEAVES: &[Leaf] = &[Leaf::Ordinary, Leaf::Host, Leaf::AtBlock, Leaf::HostFn, Leaf::HostDesc, Leaf::DescHost, Leaf::HostList, Leaf::HostPseudo];
+pub const LEAVES: &[Leaf] = &[Leaf::Ordinary, Leaf::Host, Leaf::AtBlock, Leaf::HostFn, Leaf::HostDesc, Leaf::DescHost, Leaf::HostList, Leaf::HostPseudo, Leaf::BlankHost];
 const WRAP3: &[usize] = &[0, 1, 2]; // @media, @supports, @layer
 
 #[derive(Clone, Debug)]
@@ -67,6 +70,37 @@ thread_local! {
     /// what stands in front of every top-level rule of the sheet being built: 0 nothing, 1 `<!--`, 2 `-->` (CSS ignores both between
     /// the rules of a style sheet: the rule behind them is a rule like any other; the tokens stay in the normal output)
     pub static TOP_SEPARATOR: std::cell::Cell<usize> = std::cell::Cell::new(0);
+    /// a selector that is never followed by a block, at the end of the file (top-level lists) or at the end of a wrapper's block:
+    /// index into TRAILERS, 0 = none. It is no rule: nothing is moved, nothing is warned about, the tokens stay where they are
+    /// (as they do with conversion off).
+    pub static TRAILER: std::cell::Cell<usize> = std::cell::Cell::new(0);
+}
+pub const TRAILERS: &[&str] = &["", ":host", ":host .b", ":", ".b :host"];
+
+fn push_trailer(sh: &mut Sheet) {
+    let c = "selector";
+    match TRAILER.with(|x| x.get()) {
+        0 => {}
+        1 => {
+            sh.plain(":", c);
+            sh.plain("host", c);
+        }
+        2 => {
+            sh.plain(":", c);
+            sh.plain("host", c);
+            sh.ws(true, c);
+            sh.plain(".", c);
+            sh.push("b", Role::Class, c);
+        }
+        3 => sh.plain(":", c),
+        _ => {
+            sh.plain(".", c);
+            sh.push("b", Role::Class, c);
+            sh.ws(true, c);
+            sh.plain(":", c);
+            sh.plain("host", c);
+        }
+    }
 }
 
 fn push_selector(sh: &mut Sheet, leaf: Leaf) {
@@ -92,6 +126,11 @@ fn push_selector(sh: &mut Sheet, leaf: Leaf) {
             sh.push("o", Role::Class, c);
         }
         Leaf::Host => host(sh),
+        Leaf::BlankHost => {
+            sh.plain(":", c);
+            sh.ws(true, c);
+            sh.plain("host", c);
+        }
         Leaf::AtBlock => sh.plain("@font-face", "prelude:@font-face"),
         Leaf::HostFn => {
             sh.plain(":", c);
@@ -211,6 +250,10 @@ fn build_rec(nodes: &[Node], chain: &mut Vec<usize>, b: &mut Built, opts: &Opts,
                 push_wrapper_open(&mut b.normal, *w);
                 chain.push(*w);
                 build_rec(children, chain, b, opts, next_id);
+                if chain.len() == 1 {
+                    push_trailer(&mut b.input);
+                    push_trailer(&mut b.normal);
+                }
                 chain.pop();
                 b.input.plain("}", "wrapper");
                 b.normal.plain("}", "wrapper");
@@ -223,6 +266,10 @@ pub fn build(nodes: &[Node], opts: &Opts) -> Built {
     let mut b = Built { input: Sheet::new(), normal: Sheet::new(), low: Sheet::new(), low_src: vec![], dropped: 0, moved: 0, rules: 0 };
     let mut id = 1;
     build_rec(nodes, &mut vec![], &mut b, opts, &mut id);
+    if !nodes.iter().any(|n| matches!(n, Node::Wrap(..))) {
+        push_trailer(&mut b.input);
+        push_trailer(&mut b.normal);
+    }
     b
 }
 
@@ -377,11 +424,23 @@ pub fn explore(thorough: bool, result_path: &str) {
     let n4 = lists(0, lens4, LEAVES.len() as u64) * 2 * (HOST_SPELLINGS.len() as u64 - 1);
     // space 5: `<!--` / `-->` in front of every top-level rule: every pair of leaves, every option set
     let n5 = lists(0, lens4, LEAVES.len() as u64) * 2;
-    let total = n1 * no + n2 * 3 + n3 * no + n4 * no + n5 * no;
+    // space 6: a selector without a block at the end of the file / of a wrapper's block, behind every list of <= 2 leaves
+    let nt = TRAILERS.len() as u64 - 1;
+    let n6 = lists(0, lens4, LEAVES.len() as u64) * 2 * nt;
+    let base6 = n1 * no + n2 * 3 + n3 * no + n4 * no + n5 * no;
+    let total = base6 + n6 * no;
     let rep = par_run(total, threads(), |i, rep| {
         let mut spelling = 0usize;
         let mut separator = 0usize;
-        let (space, nodes, o) = if i >= n1 * no + n2 * 3 + n3 * no + n4 * no {
+        let mut trailer = 0usize;
+        let (space, nodes, o) = if i >= base6 {
+            let k = i - base6;
+            let j = k / no;
+            trailer = 1 + (j % nt) as usize;
+            let j = j / nt;
+            let flat = unrank_list(j / 2, 0, lens4, LEAVES.len() as u64);
+            ("selector-without-block", if j % 2 == 0 { flat } else { vec![Node::Wrap(0, flat)] }, &opts[(k % no) as usize])
+        } else if i >= n1 * no + n2 * 3 + n3 * no + n4 * no {
             let k = i - (n1 * no + n2 * 3 + n3 * no + n4 * no);
             let j = k / no;
             separator = 1 + (j % 2) as usize;
@@ -407,6 +466,7 @@ pub fn explore(thorough: bool, result_path: &str) {
         };
         HOST_SPELLING.with(|x| x.set(spelling));
         TOP_SEPARATOR.with(|x| x.set(separator));
+        TRAILER.with(|x| x.set(trailer));
         rep.states += 1;
         rep.transitions += 1;
         rep.evaluations += 1;
@@ -426,7 +486,7 @@ pub fn explore(thorough: bool, result_path: &str) {
                     rep.violation(Violation {
                         fingerprint: format!("C17|{}|convert={}", kind, o.convert_host),
                         what: format!("{} for rule tree [{}] options {}: {}", kind, describe(&nodes), o.to_json(), detail.chars().take(500).collect::<String>()),
-                        replay: json!({"engine": "c17", "tree": tree_json(&nodes), "options": o.to_json(), "host_spelling": spelling, "top_separator": separator, "input": build(&nodes, o).input.text()}),
+                        replay: json!({"engine": "c17", "tree": tree_json(&nodes), "options": o.to_json(), "host_spelling": spelling, "top_separator": separator, "trailer": trailer, "input": build(&nodes, o).input.text()}),
                     });
                 }
             }
@@ -434,7 +494,7 @@ pub fn explore(thorough: bool, result_path: &str) {
     });
     let res = rep.to_result(
         "C17",
-        "every rule tree of the stated shape (leaf kinds: ordinary, :host, @font-face{…}, :host(.a), :host .a, .a :host, :host,.b, :host:hover; wrappers @media/@supports/@layer; `:host` also spelled with a comment after the colon and with escapes) under every option set {convert_host} x {class_prefix} x {host_is} x {sign} (and, with conversion on, a second rpx ratio); non-trivial = conversion on and at least one :host rule; distinct = distinct index",
+        "every rule tree of the stated shape (leaf kinds: ordinary, :host, @font-face{…}, :host(.a), :host .a, .a :host, :host,.b, :host:hover, `: host` with a blank (an ordinary rule); a selector without a block (`:host`, `:host .b`, `:`, `.b :host`) at the end of the file or of a wrapper's block; wrappers @media/@supports/@layer; `:host` also spelled with a comment after the colon and with escapes) under every option set {convert_host} x {class_prefix} x {host_is} x {sign} (and, with conversion on, a second rpx ratio); non-trivial = conversion on and at least one :host rule; distinct = distinct index",
         json!({"depth_all_leaves": 1, "depth_three_leaves": d2, "list_lengths_per_level_deep": lens2, "flat_list_length": lens3[0], "option_sets": opts.len(), "option_sets_deep": 3, "host_spellings": HOST_SPELLINGS}),
         true,
         &["cssparser tokenizer trusted on both sides", "expected outputs are virtual model sheets run through the same token-level reference rewrite as C08"],
@@ -476,6 +536,7 @@ pub fn replay(v: &Value) -> Value {
     let o = Opts::from_json(&v["options"]);
     HOST_SPELLING.with(|x| x.set(v["host_spelling"].as_u64().unwrap_or(0) as usize));
     TOP_SEPARATOR.with(|x| x.set(v["top_separator"].as_u64().unwrap_or(0) as usize));
+    TRAILER.with(|x| x.set(v["trailer"].as_u64().unwrap_or(0) as usize));
     let a = check_tree(&nodes, &o);
     let b = check_tree(&nodes, &o);
     let fmt = |r: &Result<Vec<(String, String)>, String>| match r {
